@@ -1010,3 +1010,164 @@ Proof.
     now apply (acyclic_no_self_loop _ _ Hac) in Hpr.
   - apply pedge_iff. now exists KDep.
 Qed.
+
+(** ** B.6 order in the pruned physical plan *)
+Lemma physical_fst p c es output :
+  fst (physical p c es output) =
+  prune_plan (add_all p c es) (required_writes c es) (redirect c es output).
+Proof. reflexivity. Qed.
+
+Lemma required_writes_In c es e ce :
+  In (e, ce) (entry_ids c es) -> estale e = true -> In (write_id ce) (required_writes c es).
+Proof.
+  intros Hin Hst. unfold required_writes. apply in_map_iff. exists (e, ce). split; [reflexivity|].
+  apply filter_In. split; assumption.
+Qed.
+
+Lemma edge_reach p a b k : In (mke a b k) (pedges p) -> reach (to_graph p) a b.
+Proof. intros H. apply reach1, pedge_iff. now exists k. Qed.
+
+(** the write call of every stale stored node survives pruning (it is a required node and a Call) *)
+Theorem C09_write_survives p c es output e ce :
+  tctx p c es -> In (e, ce) (entry_ids c es) -> estale e = true -> esource e = false ->
+  In (write_id ce) (pnodes (fst (physical p c es output))).
+Proof.
+  intros Ht Hin Hst Hso. rewrite physical_fst. apply prune_nodes_complete.
+  - apply (transform_nodes _ es p c Ht). right. exists e, ce. auto.
+  - left. unfold prune_roots. apply in_or_app. left. now apply (required_writes_In c es e ce).
+  - left. unfold is_lit. destruct (transform_kinds es p c e ce Ht Hin) as [_ [_ Hk]].
+    rewrite (Hk Hst), Hso. reflexivity.
+Qed.
+
+(** C14 self-containedness in the physical plan: a surviving write call still has the store literal and the
+    value as arguments, a surviving read call still has its store literal *)
+Theorem C14_write_call_args_in_physical p c es output e ce :
+  tctx p c es -> In (e, ce) (entry_ids c es) -> estale e = true -> esource e = false ->
+  let r := fst (physical p c es output) in
+  In (mke (lit_id ce) (write_id ce) (KPos 0)) (pedges r) /\
+  In (mke (enode e) (write_id ce) (KPos 1)) (pedges r) /\
+  In (lit_id ce) (pnodes r) /\ In (enode e) (pnodes r) /\
+  pkind r (lit_id ce) = KLit /\ pkind r (write_id ce) = KCall.
+Proof.
+  intros Ht Hin Hst Hso r. subst r.
+  pose proof (C09_write_survives p c es output e ce Ht Hin Hst Hso) as Hw.
+  destruct (C09_write_then_read p c es e ce Ht Hin) as [_ [_ Hargs]].
+  destruct (Hargs Hst Hso) as [Hval Hlit].
+  rewrite physical_fst in *.
+  assert (Hwf : pgraph_wf (prune_plan (add_all p c es) (required_writes c es) (redirect c es output))).
+  { apply prune_wf. now apply transform_wf. }
+  assert (H1 : In (mke (lit_id ce) (write_id ce) (KPos 0))
+                  (pedges (prune_plan (add_all p c es) (required_writes c es) (redirect c es output)))).
+  { apply prune_arg_edges_kept; [assumption | discriminate | exact Hw]. }
+  assert (H2 : In (mke (enode e) (write_id ce) (KPos 1))
+                  (pedges (prune_plan (add_all p c es) (required_writes c es) (redirect c es output)))).
+  { apply prune_arg_edges_kept; [assumption | discriminate | exact Hw]. }
+  destruct Hwf as [_ [_ He]]. destruct (transform_kinds es p c e ce Ht Hin) as [Hk1 [_ Hk3]].
+  repeat split; try assumption.
+  - apply (He _ H1).
+  - apply (He _ H2).
+  - now rewrite prune_kind.
+  - rewrite prune_kind, (Hk3 Hst), Hso. reflexivity.
+Qed.
+
+Theorem C14_read_call_arg_in_physical p c es output e ce :
+  tctx p c es -> In (e, ce) (entry_ids c es) ->
+  let r := fst (physical p c es output) in
+  In (read_id ce) (pnodes r) ->
+  In (mke (lit_id ce) (read_id ce) (KPos 0)) (pedges r) /\ In (lit_id ce) (pnodes r) /\
+  pkind r (lit_id ce) = KLit /\ pkind r (read_id ce) = KCall.
+Proof.
+  intros Ht Hin r Hr. subst r. rewrite physical_fst in *.
+  destruct (C09_write_then_read p c es e ce Ht Hin) as [Hlit _].
+  assert (Hwf : pgraph_wf (prune_plan (add_all p c es) (required_writes c es) (redirect c es output))).
+  { apply prune_wf. now apply transform_wf. }
+  assert (H1 : In (mke (lit_id ce) (read_id ce) (KPos 0))
+                  (pedges (prune_plan (add_all p c es) (required_writes c es) (redirect c es output)))).
+  { apply prune_arg_edges_kept; [assumption | discriminate | exact Hr]. }
+  destruct Hwf as [_ [_ He]]. destruct (transform_kinds es p c e ce Ht Hin) as [Hk1 [Hk2 _]].
+  repeat split; try assumption.
+  - apply (He _ H1).
+  - now rewrite prune_kind.
+  - now rewrite prune_kind.
+Qed.
+
+(** the statement asked for: whatever survives is ordered  enode e -> write -> read -> consumer *)
+Theorem C09_order_in_physical_plan p c es output e ce s k :
+  tctx p c es -> In (e, ce) (entry_ids c es) -> estale e = true ->
+  In (mke (enode e) s k) (pedges p) -> k <> KDep ->
+  let r := fst (physical p c es output) in
+  In (write_id ce) (pnodes r) -> In (read_id ce) (pnodes r) -> In s (pnodes r) ->
+  reach (to_graph r) (write_id ce) (read_id ce) /\ reach (to_graph r) (read_id ce) s /\
+  (esource e = false -> In (enode e) (pnodes r) -> reach (to_graph r) (enode e) (write_id ce)).
+Proof.
+  intros Ht Hin Hst Hx Hk r Hw Hr Hs. subst r. rewrite physical_fst in *.
+  destruct (C09_write_then_read p c es e ce Ht Hin) as [_ [Hwr Hargs]].
+  destruct (C09_consumers_on_read p c es e ce s k Ht Hin Hx Hk) as [Hcons _].
+  split; [|split].
+  - apply prune_preserves_deps; [assumption | assumption |]. apply (edge_reach _ _ _ KDep). now apply Hwr.
+  - apply prune_preserves_deps; [assumption | assumption |]. now apply (edge_reach _ _ _ k).
+  - intros Hso Hn. apply prune_preserves_deps; [assumption | assumption |].
+    apply (edge_reach _ _ _ (KPos 1)). now apply Hargs.
+Qed.
+
+(** stronger: a surviving consumer of a registered node gets its argument from the read node (so the read
+    node survives), never from the node itself; if the entry is a stale stored node then the write call and
+    the node survive as well and  enode e -> write -> read -> consumer  in the physical plan *)
+Theorem C09_consumer_in_physical_plan p c es output e ce s k :
+  tctx p c es -> In (e, ce) (entry_ids c es) ->
+  In (mke (enode e) s k) (pedges p) -> k <> KDep ->
+  let r := fst (physical p c es output) in
+  In s (pnodes r) ->
+  In (mke (read_id ce) s k) (pedges r) /\ ~ In (mke (enode e) s k) (pedges r) /\
+  In (read_id ce) (pnodes r) /\
+  (estale e = true -> esource e = false ->
+   In (mke (enode e) (write_id ce) (KPos 1)) (pedges r) /\
+   reach (to_graph r) (enode e) (write_id ce) /\
+   reach (to_graph r) (write_id ce) (read_id ce) /\
+   reach (to_graph r) (read_id ce) s).
+Proof.
+  intros Ht Hin Hx Hk r Hs. subst r.
+  destruct (C09_consumers_on_read p c es e ce s k Ht Hin Hx Hk) as [Hcons Hgone].
+  assert (Hwf : pgraph_wf (fst (physical p c es output))).
+  { rewrite physical_fst. apply prune_wf. now apply transform_wf. }
+  assert (H1 : In (mke (read_id ce) s k) (pedges (fst (physical p c es output)))).
+  { rewrite physical_fst in *. apply prune_arg_edges_kept; [assumption | exact Hk | exact Hs]. }
+  assert (Hr : In (read_id ce) (pnodes (fst (physical p c es output)))).
+  { destruct Hwf as [_ [_ He]]. apply (He _ H1). }
+  split; [exact H1 | split; [|split; [exact Hr|]]].
+  - intros H. apply Hgone. rewrite physical_fst in H. now apply prune_arg_edges_sub in H.
+  - intros Hst Hso.
+    pose proof (C09_write_survives p c es output e ce Ht Hin Hst Hso) as Hw.
+    destruct (C14_write_call_args_in_physical p c es output e ce Ht Hin Hst Hso) as [_ [Hval [_ [Hn _]]]].
+    destruct (C09_order_in_physical_plan p c es output e ce s k Ht Hin Hst Hx Hk Hw Hr Hs) as [Ha [Hb Hc]].
+    split; [exact Hval | split; [now apply Hc | split; assumption]].
+Qed.
+
+(** a stale dependent source in the physical plan: even when the Barrier literal is elided by
+    [_prune_literal_if_trivial], the read of the source comes after its (surviving) predecessors *)
+Theorem C09_stale_source_order_in_physical p c es output e ce pr :
+  tctx p c es -> In (e, ce) (entry_ids c es) -> estale e = true -> esource e = true ->
+  edge (to_graph p) pr (enode e) -> ~ In pr (map enode es) ->
+  let r := fst (physical p c es output) in
+  In pr (pnodes r) -> In (read_id ce) (pnodes r) -> reach (to_graph r) pr (read_id ce).
+Proof.
+  intros Ht Hin Hst Hso Hpr Hno r Hp Hr. subst r. rewrite physical_fst in *.
+  destruct (C09_stale_source_barrier p c es e ce Ht Hin Hst Hso) as [Hwr Hall].
+  destruct (Hall _ Hpr) as [Hun _]. destruct (Hun Hno) as [_ Hreach].
+  apply prune_preserves_deps; [assumption | assumption |].
+  apply (reachS _ _ (write_id ce)); [exact Hreach|]. apply pedge_iff. now exists KDep.
+Qed.
+
+Theorem C09_stale_source_after_writes_in_physical p c es output e ce e2 c2 :
+  tctx p c es -> acyclic (to_graph p) ->
+  In (e, ce) (entry_ids c es) -> estale e = true -> esource e = true ->
+  In (e2, c2) (entry_ids c es) -> estale e2 = true -> esource e2 = false ->
+  edge (to_graph p) (enode e2) (enode e) ->
+  let r := fst (physical p c es output) in
+  In (read_id ce) (pnodes r) -> reach (to_graph r) (write_id c2) (read_id ce).
+Proof.
+  intros Ht Hac Hin Hst Hso Hin2 Hst2 Hso2 Hpr r Hr. subst r.
+  pose proof (C09_write_survives p c es output e2 c2 Ht Hin2 Hst2 Hso2) as Hw.
+  rewrite physical_fst in *. apply prune_preserves_deps; [assumption | assumption |].
+  now apply (C09_stale_source_after_deps p c es e ce e2 c2).
+Qed.
